@@ -77,7 +77,7 @@ class Ctx:
         return r
 
     # -- binding -----------------------------------------------------------
-    def export_validate(self, name, consts, fam, timeout=1200, drain=False, maxsched=None):
+    def export_validate(self, name, consts, fam, timeout=1200, drain=False, maxsched=None, extra=()):
         stats, scheds = vlib.export_schedules(name, consts, self.kf, workers=vlib.NCPU, timeout=timeout)
         recs = [vlib.sched_record(s, consts, "%s-%d" % (name, i), fam) for i, s in enumerate(scheds)]
         if maxsched and len(recs) > maxsched:
@@ -89,7 +89,7 @@ class Ctx:
         self.transitions += stats["transitions"]
         self.model_runs.append(dict(name=name + "/export", states=stats["states"], transitions=stats["transitions"],
                                     consts=consts, schedules=len(recs)))
-        self.run_validate(recs, tag=name, drain=drain)
+        self.run_validate(recs, tag=name, drain=drain, extra=extra)
 
     def export_tamper_validate(self, name, consts, fam, per_msg=12, allpos=False, maxsched=200, timeout=1200, replace=False):
         """Schedules exported by TLC, with attacker steps inserted before every delivery: copies of the
@@ -161,7 +161,7 @@ class Ctx:
         self.traces_validated += len(recs)
         self.classify(reports)
 
-    def random_validate(self, family, n, depth, tag=None, extra=()):
+    def random_validate(self, family, n, depth, tag=None, extra=(), run_extra=()):
         tag = tag or ("rnd-" + family)
         d = os.path.join(self.work, tag)
         os.makedirs(d, exist_ok=True)
@@ -178,7 +178,7 @@ class Ctx:
                 raise Broken("schedule generator failed: " + p.stderr[-1000:])
             recs += [json.loads(l) for l in open(sf)]
         self.exhaustive = False
-        self.run_validate(recs, tag=tag, drain=True)
+        self.run_validate(recs, tag=tag, drain=True, extra=run_extra)
 
     def attack_catalogue(self, kind):
         """Scenarios with an active attacker E (own DSA key, own DH exponents, messages built by the
@@ -657,7 +657,29 @@ CHECK_DEADLOCK FALSE
     ctx.also_props = {"C04"}
 
 
+def c08(ctx):
+    q = ctx.quick()
+    inv = ["NoSecretsAtRest", "TextRetention"]
+    scan = ("-scan",)
+    for i, pol in enumerate(LIFE[:3] if q else LIFE):
+        c = dict(pol, MaxSend=1 if q else 2, MaxFlight=3, MaxQuery=1, MaxEnd=1, MaxTick=0 if q else 1)
+        ctx.model("c08-life%d" % i, c, inv, timeout=1800)
+    ctx.model("c08-data", dict(DATA33, MaxSend=3, MaxFlight=3, MaxEnd=1), inv)
+    ctx.export_validate("c08x-life", dict(PolA=7, PolB=3, MaxSend=1, MaxFlight=3, MaxQuery=1, MaxEnd=1), "life", drain=True,
+                        maxsched=1200 if q else 12000, extra=scan)
+    ctx.export_validate("c08x-data", dict(DATA33, MaxSend=2, MaxFlight=2, MaxEnd=1), "none", drain=True,
+                        maxsched=800 if q else 8000, extra=scan)
+    for name in (("both",) if q else ("both", "both-v2", "reqboth", "refresh")):
+        pol, prelude = STARTS[name]
+        ctx.export_validate("c08x-" + name, dict(pol, Prelude=prelude, MaxFlight=4, MaxEnd=1), "none", drain=True, extra=scan)
+    ctx.random_validate("life", 32 if q else 320, 60 if q else 150, run_extra=scan)
+    ctx.random_validate("errlife", 32 if q else 320, 60 if q else 150, run_extra=scan)
+    ctx.random_validate("smp", 8 if q else 80, 3, run_extra=scan)
+    ctx.random_validate("bagsess", 16 if q else 160, 80, run_extra=scan)
+
+
 TABLE = {
+    "C08": c08,
     "C14": c14,
     "C11": c11,
     "C12": c12,
